@@ -1,9 +1,26 @@
-(* Bridge (property C10, round 7): the await loop of core/engine/engine.go cancels the run context (the
-   aggregator's) in checkAllInstancesAreFinished and nowhere else (re-read by `translate phout`, shared with
-   C06) - in particular not in the "out of ammo" branch: the variant C10_engine_one_sample_per_fired_request
-   is about is the one of the source. *)
-From Coq Require Import Bool.
-From PV Require Import Gen.PhoutGen Model.ShootEngine.
+(* Bridge (property C10, round 7): what `translate awaitrun` re-reads from core/engine/engine.go is what
+   Model/ShootEngine.v says of the await loop and the contexts:
+   - the "out of ammo" branch of awaitRun calls instanceStartCancel() only (the hypothesis no_run_cancel of
+     C10_engine_one_sample_per_fired_request holds of the source), no other arm of the select cancels anything,
+     the startRes and runRes arms end in checkAllInstancesAreFinished();
+   - checkAllInstancesAreFinished goes on only when isStartFinished() && awaitedInstances >= startedInstances and
+     then calls runCancel() ([check_all]); no other function of the file calls runCancel();
+   - the aggregator and the provider run under the context runCancel cancels, the start context is its child. *)
+From Coq Require Import List Bool.
+From PV Require Import Gen.AwaitRunGen Model.ShootEngine.
+Import ListNotations.
 
-Lemma c10_engine_out_of_ammo_keeps_run : engine_variant gen_run_cancel_only_in_check = false.
+Lemma c10_engine_out_of_ammo_calls : gen_ooa_calls = engine_ooa.
 Proof. reflexivity. Qed.
+
+Lemma c10_engine_out_of_ammo_keeps_run : no_run_cancel gen_ooa_calls = true.
+Proof. reflexivity. Qed.
+
+Lemma c10_engine_await_loop_is_model :
+  gen_await_other_calls = [] /\ gen_start_arm_checks = true /\ gen_run_arm_checks = true /\
+  gen_check_guard_is_model = true /\ gen_check_calls = [CcRun] /\ gen_run_cancel_sites_only_check = true.
+Proof. repeat split; reflexivity. Qed.
+
+Lemma c10_engine_contexts_are_model :
+  gen_aggr_ctx_is_run = true /\ gen_prov_ctx_is_run = true /\ gen_start_ctx_child_of_run = true.
+Proof. repeat split; reflexivity. Qed.
